@@ -28,6 +28,11 @@ type scriptSC struct {
 	Should  func(call int) bool
 	StopAt  int // index of the Save call that answers AfterSaveStop (-1: never)
 	DiskDir string
+	// Late: the checkpoint is kept as handed over and only serialized when the next one arrives
+	// (or at the end of the run), like a persister that debounces its writes
+	Late    bool
+	pending *patcher.Checkpoint
+	pendIdx int
 
 	calls  int
 	Saves  []savedCk
@@ -39,13 +44,37 @@ func (s *scriptSC) ShouldSave() bool {
 	return s.Should(s.calls)
 }
 
+// flushLate serializes the checkpoint that was kept back, replacing the placeholder.
+func (s *scriptSC) flushLate() {
+	if s.pending == nil {
+		return
+	}
+	var buf bytes.Buffer
+	if err := gob.NewEncoder(&buf).Encode(s.pending); err != nil {
+		if s.EncErr == nil {
+			s.EncErr = err
+		}
+	} else {
+		s.Saves[s.pendIdx].Gob = buf.Bytes()
+	}
+	s.pending = nil
+}
+
 func (s *scriptSC) Save(c *patcher.Checkpoint) (patcher.AfterSaveAction, error) {
+	s.flushLate()
 	var buf bytes.Buffer
 	if err := gob.NewEncoder(&buf).Encode(c); err != nil {
 		if s.EncErr == nil {
 			s.EncErr = err
 		}
 		return patcher.AfterSaveContinue, nil
+	}
+	if s.Late {
+		defer func() {
+			if len(s.Saves) > 0 && !(s.StopAt >= 0 && len(s.Saves)-1 == s.StopAt) {
+				s.pending, s.pendIdx = c, len(s.Saves)-1
+			}
+		}()
 	}
 	d := fmt.Sprintf("file %d kind %d", c.FileIndex, c.FileKind)
 	if c.MessageCheckpoint != nil {
@@ -330,7 +359,7 @@ func TestC03(t *testing.T) {
 
 		// instrumented run B: collect every checkpoint with its disk state
 		bout, bstage := mkdirs()
-		sc := &scriptSC{Should: should, StopAt: -1, DiskDir: diskDir(bout, bstage)}
+		sc := &scriptSC{Should: should, StopAt: -1, DiskDir: diskDir(bout, bstage), Late: rapid.IntRange(0, 2).Draw(rt, "lateserialization") == 0}
 		b := &session{Patch: patch, OldDir: oldDir, OutDir: bout, StageDir: bstage, Overlay: overlay, Slice: slice, SC: sc, Whitelist: whitelist}
 		// interruption instants between checkpoints: disk snapshots taken at every n-th read of the
 		// patch source (at most 12), remembered with the number of checkpoints handed out so far
@@ -346,6 +375,8 @@ func TestC03(t *testing.T) {
 			}
 		}
 		b.run()
+		sc.flushLate()
+		Ev.ProbeIf(sc.Late && len(sc.Saves) > 1, "checkpoints_serialized_only_after_the_patcher_moved_on")
 		if b.Panic != "" || b.ResumeErr != nil {
 			Violation(rt, "C03/saving-run", "apply with a saving consumer failed at %s: %v %s (%s)", b.Stage, b.ResumeErr, b.Panic, cfg)
 			return
